@@ -396,3 +396,107 @@ Proof.
   pose proof (pass1_ok (Some text) p sym T E) as OK. destruct sym as [L rel dbg]. cbn [st_labels] in OK.
   pose proof (pass2_spec p L rel dbg true T OK) as S. destruct (pass2 p _ true); [discriminate|discriminate|contradiction].
 Qed.
+
+(* ---------- the queries ---------- *)
+Theorem line_table text p sym : typed p = true -> lines_inc text p -> pass1 p (Some text) = AOk sym ->
+  exists m, st_debug sym = Some (mkDebug m text) /\ lm_ok m /\
+            forall n a, In (n, a) (lsm_iter m) <-> In (n, a) (spec_lines text p).
+Proof.
+  intros T LI E. destruct (pass1_table text p sym T E) as [m [ED EM]]. fold (table text p) in EM.
+  exists m. split; [exact ED|].
+  pose proof (pass1_ok (Some text) p sym T E) as OK.
+  assert (CL : closed (table text p) false).
+  { apply closed_last. assert (LN : len (table text p) = count_lines text).
+    { unfold table. rewrite len_fold_apply, len_repeat. pose proof (get_line_range text 0). lia. }
+    pose proof (get_line_range text 0) as GR.
+    destruct (table text p) as [|x l] eqn:ET; [unfold len in LN; cbn in LN; lia|]. rewrite <- ET in *.
+    destruct (nth_z_defined (table text p) (len (table text p) - 1) ltac:(lia)) as [v Hv]. rewrite Hv. f_equal.
+    destruct v as [a|]; [exfalso|reflexivity].
+    apply (table_in text p _ a LI) in Hv. rewrite entries_ents in Hv.
+    destruct (ent_closed text p None (ok_closed _ _ OK) LI _ _ Hv) as [s' [_ Hs']].
+    unfold line_of in Hs'. pose proof (get_line_range text (s_start s')). lia. }
+  destruct (lsm_new_ok _ m EM CL) as [LM IT]. split; [exact LM|].
+  intros n a. rewrite IT, enum_some_in. rewrite Z.sub_0_r. split.
+  - intros [_ H]. apply (table_in text p n a LI). exact H.
+  - intros H. pose proof (proj2 (table_in text p n a LI) H) as H'. split; [apply nth_z_some in H'; lia | exact H'].
+Qed.
+
+Theorem forward_spec text p sym : typed p = true -> lines_inc text p -> pass1 p (Some text) = AOk sym ->
+  forall n a, lookup_line sym n = Some a <-> In (n, a) (spec_lines text p).
+Proof.
+  intros T LI E n a. destruct (line_table text p sym T LI E) as [m [ED [LM IT]]].
+  unfold lookup_line. rewrite ED. cbn [ds_lines]. rewrite (lsm_get_iter m n a LM). apply IT.
+Qed.
+
+Theorem listing_lines text p sym : typed p = true -> lines_inc text p -> pass1 p (Some text) = AOk sym ->
+  forall n a, In (n, a) (line_iter sym) <-> In (n, a) (spec_lines text p).
+Proof.
+  intros T LI E n a. destruct (line_table text p sym T LI E) as [m [ED [LM IT]]].
+  unfold line_iter. rewrite ED. cbn [ds_lines]. apply IT.
+Qed.
+
+(* no line holds two addresses *)
+Theorem lines_functional text p : lines_inc text p -> NoDup (map fst (spec_lines text p)).
+Proof. intros LI. apply (ent_nodup text p None LI). Qed.
+
+(* ---------- no address stands on two lines ---------- *)
+Inductive subseq {A} : list A -> list A -> Prop :=
+| sub_nil : subseq [] []
+| sub_skip x l l' : subseq l l' -> subseq l (x :: l')
+| sub_keep x l l' : subseq l l' -> subseq (x :: l) (x :: l').
+Lemma subseq_nil_l {A} (l : list A) : subseq [] l.
+Proof. induction l; constructor; assumption. Qed.
+Lemma subseq_app {A} (a a' b b' : list A) : subseq a a' -> subseq b b' -> subseq (a ++ b) (a' ++ b').
+Proof. intros H1 H2. induction H1; cbn [app]; [exact H2 | constructor; exact IHsubseq | constructor; exact IHsubseq]. Qed.
+Lemma subseq_in {A} (l l' : list A) x : subseq l l' -> In x l -> In x l'.
+Proof. intros H. induction H; intros Hx; [contradiction | right; exact (IHsubseq Hx) | destruct Hx as [<-|Hx]; [left; reflexivity | right; exact (IHsubseq Hx)]]. Qed.
+Lemma subseq_nodup {A} (l l' : list A) : subseq l l' -> NoDup l' -> NoDup l.
+Proof.
+  intros H. induction H; intros N; [constructor | |]; inversion N as [|? ? N1 N2]; subst.
+  - exact (IHsubseq N2).
+  - constructor; [|exact (IHsubseq N2)]. intros Hx. apply N1. exact (subseq_in _ _ _ H Hx).
+Qed.
+Lemma subseq_flat_map {A B} (f g : A -> list B) l : (forall x, In x l -> subseq (f x) (g x)) -> subseq (flat_map f l) (flat_map g l).
+Proof.
+  induction l as [|x l IH]; intros H; cbn [flat_map]; [constructor|].
+  apply subseq_app; [apply H; left; reflexivity | apply IH; intros y Hy; apply H; right; exact Hy].
+Qed.
+
+Theorem lines_injective text p : typed p = true -> wf p = true -> blkw_pos p = true ->
+  NoDup (map snd (spec_lines text p)).
+Proof.
+  intros T W BP. apply (subseq_nodup _ (map fst (spec_cells p))); [|exact (wf_cells_nodup p T W)].
+  unfold spec_lines, spec_cells. rewrite !flat_map_concat_map, !concat_map, !map_map, <- !flat_map_concat_map.
+  apply subseq_flat_map. intros [c s] Hin. unfold line_entry, cells_of. cbn [fst snd].
+  destruct c as [[o a]|]; [|constructor]. destruct (needs_addr s) eqn:NA; [|apply subseq_nil_l].
+  cbn [map snd].
+  assert (Ts : typed_stmt s = true).
+  { apply (typed_in p s T). unfold placed in Hin. clear - Hin. revert Hin. generalize (@None (Z * Z)). induction p as [|s0 p IH]; intros c0 H; [contradiction|].
+    destruct H as [H|H]; [injection H as _ <-; left; reflexivity | right; exact (IH _ H)]. }
+  assert (Bs : match s_nucleus s with NDir (DBlkw n) => (0 <? n) = true | _ => True end).
+  { unfold blkw_pos in BP. rewrite forallb_forall in BP.
+    assert (In s p). { unfold placed in Hin. clear - Hin. revert Hin. generalize (@None (Z * Z)). induction p as [|s0 p IH]; intros c0 H; [contradiction|].
+      destruct H as [H|H]; [injection H as _ <-; left; reflexivity | right; exact (IH _ H)]. }
+    specialize (BP s H). destruct (s_nucleus s) as [i|[a0|o0|n|t| |l]]; try exact Logic.I. exact BP. }
+  pose proof (len_stmt_words (bindings p) a s Ts) as LW.
+  assert (SP : 0 < size s).
+  { unfold size, needs_addr in *. destruct (s_nucleus s) as [i|[a0|o0|n|t| |l]]; try discriminate; try lia. pose proof (byte_len_nonneg t). lia. }
+  destruct (stmt_words (bindings p) a s) as [|w ws]; [unfold len in LW; cbn in LW; lia|].
+  cbn [cells_from map fst]. apply sub_keep. apply subseq_nil_l.
+Qed.
+
+Theorem backward_spec text p sym : typed p = true -> lines_inc text p -> wf p = true -> blkw_pos p = true ->
+  pass1 p (Some text) = AOk sym ->
+  forall a n, rev_lookup_line sym a = Some n <-> In (n, a) (spec_lines text p).
+Proof.
+  intros T LI W BP E a n. destruct (line_table text p sym T LI E) as [m [ED [LM IT]]].
+  unfold rev_lookup_line. rewrite ED. cbn [ds_lines]. rewrite (lsm_find_iter m a n LM); [apply IT|].
+  intros n1 n2 H1 H2. apply IT in H1, H2. pose proof (lines_injective text p T W BP) as ND.
+  clear - H1 H2 ND. induction (spec_lines text p) as [|[n0 a0] l IH]; [contradiction|].
+  cbn [map snd] in ND. inversion ND as [|? ? N1 N2]; subst.
+  destruct H1 as [H1|H1]; destruct H2 as [H2|H2].
+  - congruence.
+  - injection H1 as -> ->. exfalso. apply N1. apply (in_map snd) in H2. exact H2.
+  - injection H2 as -> ->. exfalso. apply N1. apply (in_map snd) in H1. exact H1.
+  - exact (IH H1 H2 N2).
+Qed.
